@@ -220,6 +220,23 @@ func c05Scenarios(tier string) []e1lib.Scenario {
 	for k := 0; k <= 3; k++ {
 		add(stage.Cfg{Stage: "fold100", K: k, Stop: -1, Stop2: -1})
 	}
+	// deeply buffered inputs (the whole input fits into the channel): whatever a stage does for roomy channels, the
+	// list image is the same
+	for _, cp := range []int{16, 64, 1024} {
+		for _, st := range []string{"map", "fmap", "filter", "takewhile", "take", "partition", "fold", "foreach", "void"} {
+			c := stage.Cfg{Stage: st, K: 3, N: 2, Cap: cp, Stop: -1, Stop2: -1, Mode: "pure", Mask: 0b1010}
+			if st == "fmap" {
+				c.Mode = "lift"
+			}
+			if st == "map" || st == "fmap" || st == "foreach" {
+				c.Mask = 0 // the functions of this property do not fail
+			}
+			if st == "takewhile" {
+				c.Mask = 0b0110
+			}
+			add(c)
+		}
+	}
 	// Seq over argument lists longer than any plausible internal chunk size (the caller overwrites its slice after the call)
 	for _, k := range []int{17, 65, 129, 300} {
 		add(stage.Cfg{Stage: "seq", K: k, Stop: -1, Stop2: -1})
